@@ -113,8 +113,14 @@ def total2(ctx) -> List[Ob]:
     okp = False
     if isinstance(preds, ast.Name):
         for d in cfg.reaching_defs(c, preds.id):
-            if d.stmt is not None and isinstance(d.stmt, ast.Assign) and isinstance(d.stmt.value, ast.ListComp):
-                lc = d.stmt.value
+            if d.stmt is not None and isinstance(d.stmt, ast.Assign) and isinstance(d.stmt.value, ast.Call) and isinstance(d.stmt.value.func, ast.Name) and d.stmt.value.func.id in ("tuple", "list", "sorted") and len(d.stmt.value.args) == 1 and isinstance(d.stmt.value.args[0], (ast.GeneratorExp, ast.ListComp)):
+                # tuple(x for ..) / list(x for ..) of the same comprehension: read as the list comprehension
+                g_ = d.stmt.value.args[0]
+                d_stmt_value = ast.copy_location(ast.ListComp(elt=g_.elt, generators=g_.generators), g_)
+            else:
+                d_stmt_value = d.stmt.value if d.stmt is not None and isinstance(d.stmt, ast.Assign) else None
+            if d.stmt is not None and isinstance(d.stmt, ast.Assign) and isinstance(d_stmt_value, ast.ListComp):
+                lc = d_stmt_value
                 g0 = lc.generators[0]
                 it_txt = A.unparse(g0.iter)
                 if len(lc.generators) == 1 and len(g0.ifs) == 1 and "is_exiting" in A.unparse(g0.ifs[0]):
